@@ -44,13 +44,15 @@ def run(ctx, replay):
     traces, sums = vlib.drive_cases(ctx, "c15", cases, nchunks=8)
     if not thorough:
         t2, s2 = vlib.drive_cases(ctx, "c15", cases[::9], nchunks=8, extra=["-nest", "1"], tag="nest1")
-        traces += t2
-        sums += s2
+        t3, s3 = vlib.drive_cases(ctx, "c15", cases[::41], nchunks=8, extra=["-nest", "24"], tag="nest24")   # depth is not a key either
+        traces += t2 + t3
+        sums += s2 + s3
     if thorough:
         t2, s2 = vlib.drive_cases(ctx, "c15", cases, nchunks=8, extra=["-nest", "1"], tag="nest1")
         t3, s3 = vlib.drive_cases(ctx, "c15", cases[::7], nchunks=8, extra=["-nest", "3"], tag="nest3")
-        traces += t2 + t3
-        sums += s2 + s3
+        t4, s4 = vlib.drive_cases(ctx, "c15", cases[::11], nchunks=8, extra=["-nest", "24"], tag="nest24")
+        traces += t2 + t3 + t4
+        sums += s2 + s3 + s4
     n, bad = vlib.judge(ctx, "Trace_Steps", traces)
     vlib.report_bad(ctx, bad, sig, desc,
                     lambda ev: {"cases": [ev["c"]], "extra": ["-nest", ev.get("nest", 0), "-top", "1" if ev.get("top") else "0"], "event": ev},
